@@ -76,13 +76,13 @@ def run(c, a):
         total_strings += out["strings"]
         traces += ["%s.%02d.ndjson" % (prefix, i) for i in range(shards)]
     # deeper scopes over the classes that take part in look-behind rules (length exactly n)
-    LB_HOT = ["NU", "CL", "CP", "CM", "ZWJ", "PO", "PR", "SP", "OP", "HY", "IS", "SY", "AL", "RI", "QU", "B2", "ZW", "HL", "BA", "EB", "EM", "ID", "GL", "NS"]
+    LB_HOT = ["NU", "CL", "CP", "CM", "SA", "ZWJ", "PO", "PR", "SP", "OP", "HY", "IS", "SY", "AL", "RI", "QU", "B2", "ZW", "HL", "BA", "EB", "EM", "ID", "GL", "NS"]
     WB_HOT = ["AL", "HL", "ML", "MNL", "MN", "SQ", "DQ", "NU", "EF", "ENL", "KA", "RI", "WS", "XX", "NL"]
     if thorough:
-        deep = [("l", 4, LB_HOT), ("w", 4, WB_HOT), ("l", 5, LB_HOT[:14]), ("w", 5, WB_HOT[:10]),
-                ("l", 6, ["NU", "CL", "CM", "PO", "SP", "OP", "IS", "RI", "ZWJ", "QU"])]
+        deep = [("l", 4, LB_HOT), ("w", 4, WB_HOT), ("l", 5, LB_HOT[:15]), ("w", 5, WB_HOT[:10]),
+                ("l", 6, ["NU", "CL", "CM", "SA", "PO", "SP", "OP", "IS", "RI", "ZWJ", "QU"])]
     else:
-        deep = [("l", 4, LB_HOT[:18]), ("w", 4, WB_HOT[:9] + ["XX"])]
+        deep = [("l", 4, LB_HOT[:19]), ("w", 4, WB_HOT[:9] + ["XX"])]
     for k, n, classes in deep:
         prefix = os.path.join(c.scratch, "deep_%s%d" % (k, n))
         shards = NCPU * (4 if thorough else 1)
